@@ -105,3 +105,24 @@ Proof.
   exists m', minted. split; [apply gen_BeginBlocker; exact E|]. split; [exact Hok|]. split; [exact Hnn|exact E].
 Qed.
 Print Assumptions C17_mint_live_generated.
+
+From Sge Require Import Model.Orderbook Proofs.Custody Proofs.ParamHist.
+(* parameter HISTORIES: the subaccount module's accepted parameter updates (its two endpoint switches) may occur anywhere between user
+   operations; the subaccount ledger of C11 (ids and owners distinct, no negative amount, every subaccount address holds at least
+   deposited - withdrawn - spent - lost) and the custody equations of C01 hold after every such history.  `gstep` is what the correspondence
+   runs execute for the history operation SPRM (x/subaccount UpdateParams under the governance authority) *)
+Theorem C17_subaccount_parameter_histories : forall bk supply P vault MP t0 sw sd gs,
+  bget bk POOL = 0 -> bget bk HOUSEFEE = 0 -> bget bk BETFEE = 0 ->
+  (forall a, SUBBASE <= a -> 0 <= bget bk a) -> Forall guser_op gs ->
+  let s := grun (init bk supply P vault MP t0 sw sd) gs in
+  (NoDup (map sa_id (c_subs s)) /\ NoDup (map sa_owner (c_subs s)) /\
+   forall x, In x (c_subs s) ->
+     0 <= sa_dep x /\ 0 <= sa_spent x /\ 0 <= sa_wd x /\ 0 <= sa_lost x /\
+     sa_dep x - sa_wd x - sa_spent x - sa_lost x <= bget (c_bank s) (sub_addr x)) /\
+  cust s.
+Proof. exact ledgers_over_parameter_histories. Qed.
+Print Assumptions C17_subaccount_parameter_histories.
+(* without parameter changes this is the ordinary run *)
+Theorem C17_parameter_histories_extend_runs : forall ops s, grun s (map GUser ops) = run s ops.
+Proof. exact grun_user. Qed.
+Print Assumptions C17_parameter_histories_extend_runs.
